@@ -6,10 +6,11 @@ ASSUMPTIONS = []
 EXPLANATION = "bounded symbolic execution of the iteration protocol of every iterable against reference sequences"
 US = ["Type_Scan.0:24", "Type_Scan.1:24", "strcmp.0:24"]
 OBLIGATIONS = [
-    Ob("range.iter.b6", "C11/range.c", defs=["B=6"], unwind=17, unwindset=US, checks=["overflow", "div0"], tiers=("probe",), timeout=600,
+    Ob("range.iter.b6", "C11/range.c", defs=["B=6"], unwind=17, unwindset=US, checks=["overflow", "div0"], tiers=("quick", "thorough"), timeout=900,
        desc="Range forward/backward iteration, len, get for start,stop in [-6,6], step in [-3,3]"),
-    Ob("range.len64", "C11/range_len64.c", unwind=5, unwindset=US, checks=["overflow", "div0"], tiers=("probe",), timeout=600,
+    Ob("range.len64", "C11/range_len64.c", unwind=5, unwindset=US, checks=["overflow", "div0"], tiers=("thorough",), timeout=3600,
        desc="Range_Len vs closed form over 62-bit operands"),
 ]
-LEVEL_TEXT = "x"
-LEVEL_NOTE = "x"
+LEVEL_TEXT = ("Bounded model checking of the iteration protocol: Range through the full real dispatch for all start/stop in [-B,B] and step in [-3,3]; "
+              "container cursors (Array, Table, Tree) from arbitrary valid states in the C04/C02/C03 harnesses, whose obligations this check also runs.")
+LEVEL_NOTE = "Trusted: cbmc; reference sequences written from the definitions in the property text. Slice/Zip/Filter/Map: see known findings and DESIGN.md."
